@@ -335,7 +335,9 @@ def run(ctx):
                 'polynomial weight and explicit nqp; asymmetric pairs of different degree/multiplicity on a common mesh with the common mesh or a '
                 'refinement as quadgrid; 2-D/3-D Kronecker and generic (identity geometry, strings, predefined vforms) paths with mixed degrees; '
                 'load vectors / inner products / integrals with polynomial data in 1-3 dims with and without (bilinear, orientation-reversing) geometry; '
-                'integer matrices through det_and_inv/inverses/determinants.  non-trivial = more than one span or degree >= 1; distinct by request line')
+                'integer matrices through det_and_inv/inverses/determinants; call HISTORIES: per knot-vector pair on a common mesh 3-5 calls in one process mixing weighted/unweighted 1-D forms, '
+                'asym forms, 2-D mass/stiffness, inner_products/integrate, load_vector, each compared with the stateless model of that call, with a bitwise monitor of the '
+                'arrays returned by make_iterated_quadrature/gauss_rule.  non-trivial = more than one span or degree >= 1; distinct by request line')
     req, exp, meta = [], [], []
 
     def add(r, thunk, m):
@@ -346,12 +348,33 @@ def run(ctx):
             e = 'err-assertion'; ctx.count('err-assertion')
         except Exception as ex:
             e = 'err-' + type(ex).__name__; ctx.count(e)
+        if hist_seq is not None:
+            hist_seq.append({'call': m.get('what', m.get('kind')), 'args': m.get('case')})
+            m['hist'] = list(hist_seq)
+            if hist_monitor is not None:
+                hist_monitor()
         req.append(r); exp.append(e); meta.append(m)
         ctx.case(r, nontrivial=m.get('nontrivial', True))
 
     def leg(n):
         x, w = np.polynomial.legendre.leggauss(n)
         return x, w
+
+    def hquad(mesh, n):
+        """harness-local copy of gauss_rule/make_iterated_quadrature (same float formula): the inputs of the model requests
+        must not come from arrays the implementation may have cached or mutated"""
+        mesh = np.asarray(mesh, dtype=float)
+        a, b = mesh[:-1], mesh[1:]
+        x, w = leg(n)
+        m_ = 0.5 * (a + b); h_ = 0.5 * (b - a)
+        return (np.outer(h_, x) + m_[:, np.newaxis]).ravel(), np.outer(h_, w).ravel()
+
+    def htquad(meshes, n):
+        g = [hquad(mesh, n) for mesh in meshes]
+        return tuple(q[0] for q in g), tuple(q[1] for q in g)
+
+    hist_seq = None          # list of the calls made so far in the current history (None outside the history stream)
+    hist_monitor = None
 
     # ---- leggauss contract (exact spot check; inputs of the model) -----------------------------
     worstx = worstw = F(0)
@@ -421,7 +444,7 @@ def run(ctx):
         p = kv.p
         nqp = nqp_arg if nqp_arg is not None else int(math.ceil((2 * p - du - dv + 1) / 2.0))
         x, w = leg(nqp)
-        q = quadrature.make_iterated_quadrature(kv.mesh, nqp)
+        q = hquad(kv.mesh, nqp)
         derivs = np.asarray(bspline.active_deriv(kv, q[0], max(du, dv)))
         wf = None if wpoly is None else utils.grid_eval(polyfun(wpoly), (q[0],))
         Dv, Du = derivs[dv], derivs[du]
@@ -463,7 +486,7 @@ def run(ctx):
         nqp = nqp_arg if nqp_arg is not None else int(math.ceil((kv1.p + kv2.p - du - dv + 1) / 2.0))
         qg = kv1.mesh if quadgrid is None else quadgrid
         x, w = leg(nqp)
-        q = quadrature.make_iterated_quadrature(qg, nqp)
+        q = hquad(qg, nqp)
         d1 = np.asarray(bspline.active_deriv(kv1, q[0], du))[du]
         d2 = np.asarray(bspline.active_deriv(kv2, q[0], dv))[dv]
         hdr = 'asym %d %d %d %s %s %s %s %s ' % (kv1.p, kv2.p, nqp, fl(kv1.kv), fl(kv2.kv), fl(qg), fl(x), fl(w))
@@ -512,7 +535,7 @@ def run(ctx):
             if nqp <= 0 or d > kv.p:
                 return None, None
             x, w = leg(nqp)
-            q = quadrature.make_iterated_quadrature(kv.mesh, nqp)
+            q = hquad(kv.mesh, nqp)
             D = np.asarray(bspline.active_deriv(kv, q[0], d))[d]
             toks.append('%d %s %s %s' % (nqp, fl(x), fl(w), fmat(D)))
             atoks.append('%d %s %s %s' % (nqp, fl(x), fl(w), fmat(np.abs(D))))
@@ -605,19 +628,19 @@ def run(ctx):
             c = c[:, :, ::-1].copy()
         return bspline.BSplineFunc(gk, c)
 
-    nl = 40 if quick else 400
-    for it in range(nl):
-        kv = rand_kv(rng)
-        fp = rand_poly(rng, int(rng.integers(0, 4)))
+    def load_case(kv, fp):
         nqp = kv.p + 1
-        x, w = leg(nqp)
-        q = quadrature.make_iterated_quadrature(kv.mesh, nqp)
+        q = hquad(kv.mesh, nqp)
         C = bspline.collocation(kv, q[0]).toarray()
         fv = polyfun(fp)(q[0])
         add('load %s %s %s' % (fmat(C), fl(q[1]), fl(fv)), lambda: ('vec', bspline.load_vector(kv, polyfun(fp))),
             {'kind': 'vec', 'abs': 'load %s %s %s' % (fmat(np.abs(C)), fl(q[1]), fl(np.abs(fv))), 'nterms': len(q[0]) + 4,
              'what': 'load_vector', 'case': {'kv': kv.kv.tolist(), 'p': kv.p, 'f_poly': fp}})
         ctx.count('load_vector')
+
+    nl = 40 if quick else 400
+    for it in range(nl):
+        load_case(rand_kv(rng), rand_poly(rng, int(rng.integers(0, 4))))
     # fixed finding gal:single-node-axis (repo commit ac6496d): an axis with a single quadrature node (all degrees 0, one-span axis)
     def single_node_axis(kvs):
         return max(kv.p for kv in kvs) == 0 and any(kv.numspans == 1 for kv in kvs)
@@ -637,16 +660,12 @@ def run(ctx):
             ctx.violation('gal:single-node-axis', '%s(KnotVector([0,1],0), 1) %s; exact value 1' % (nm, why),
                           {'kv': [0.0, 1.0], 'p': 0, 'f': '1', 'call': nm, 'observed': why}, True)
 
-    ni = 30 if quick else 300
-    for it in range(ni):
-        dim = 1 + it % 3
-        kvs = tuple(rand_kv(rng, maxp=(4, 3, 2)[dim - 1], nspans=int(rng.integers(1, (5, 4, 3)[dim - 1]))) for _ in range(dim))
+    def inner_case(kvs, cf, geo):
+        dim = len(kvs)
         if single_node_axis(kvs):
             ctx.count('single-node axis (regression of fixed finding gal:single-node-axis)')
         nqp = max(kv.p for kv in kvs) + 1
-        x, w = leg(nqp)
-        grid, wts = quadrature.make_tensor_quadrature([kv.mesh for kv in kvs], nqp)
-        cf = [rand_poly(rng, 1) for _ in range(dim)]
+        grid, wts = htquad([kv.mesh for kv in kvs], nqp)
 
         def f(*X, cf=cf):
             r = 1.0
@@ -654,9 +673,6 @@ def run(ctx):
                 r = r * (c[0] + c[1] * xx)
             return r
         fv = utils.grid_eval(f, grid)
-        geo = None
-        if dim >= 2 and it % 2:
-            geo = bilinear_geo(kvs)
         det = None if geo is None else np.abs(assemble_tools.determinants(geo.grid_jacobian(grid)))
         Cs = [bspline.collocation(kv, g).toarray() for kv, g in zip(kvs, grid)]
         case = {'kvs': [(kv.kv.tolist(), kv.p) for kv in kvs], 'f_coeffs': cf, 'geo_coeffs': None if geo is None else geo.coeffs.tolist()}
@@ -671,6 +687,13 @@ def run(ctx):
             {'kind': 'vec', 'abs': 'integ %s %s %s' % (plist(wts, fl), fl(np.abs(fv.ravel())), fopt(rdet)),
              'nterms': int(np.prod([len(g) for g in grid])) + 8, 'what': 'integrate %dD%s' % (dim, '' if geo is None else ' geo'), 'case': case})
         ctx.count('inner_products/integrate %dD%s' % (dim, '' if geo is None else ' geo'), 2)
+
+    ni = 30 if quick else 300
+    for it in range(ni):
+        dim = 1 + it % 3
+        kvs = tuple(rand_kv(rng, maxp=(4, 3, 2)[dim - 1], nspans=int(rng.integers(1, (5, 4, 3)[dim - 1]))) for _ in range(dim))
+        cf = [rand_poly(rng, 1) for _ in range(dim)]
+        inner_case(kvs, cf, bilinear_geo(kvs) if (dim >= 2 and it % 2) else None)
 
     # ---- stream: closed-form determinants / inverses (exact) ------------------------------------
     def unimodular(d):
@@ -713,6 +736,77 @@ def run(ctx):
             add('detinv inverses_%dx%d %s' % (d, d, ent), f2, m)
         ctx.count('det/inv %dx%d' % (d, d))
 
+    # ---- stream: call HISTORIES in one process (state carried between calls must not change any result) ---------------
+    # every call of a sequence is compared with the (stateless) model of that single call; after every call the arrays
+    # returned by make_iterated_quadrature / gauss_rule for the meshes in play must be bitwise what they were before.
+    hist_bad = []
+
+    def run_history(kv, kv2, steps):
+        nonlocal hist_seq, hist_monitor
+        meshes = [kv.mesh.copy()]
+        nqps = range(1, max(kv.p, kv2.p) + 3)
+
+        def snapshot():
+            out = {}
+            for mi, mesh in enumerate(meshes):
+                for n in nqps:
+                    for nm, arrs in (('make_iterated_quadrature', quadrature.make_iterated_quadrature(mesh, n)),
+                                     ('gauss_rule', quadrature.gauss_rule(n, mesh[:-1], mesh[1:]))):
+                        out[(nm, mi, n)] = tuple(np.asarray(a).tobytes() for a in arrs)
+            return out
+        base = snapshot()
+        hist_seq = []
+
+        def monitor():
+            now = snapshot()
+            for k in base:
+                if now[k] != base[k] and not hist_bad:
+                    hist_bad.append(k)
+                    ctx.violation('gal-hist:quadrature-arrays-mutated',
+                                  '%s(mesh, %d) returns different arrays after the call sequence %s than before it (same arguments)'
+                                  % (k[0], k[2], [c['call'] for c in hist_seq]),
+                                  {'mesh': meshes[k[1]].tolist(), 'nqp': k[2], 'function': k[0], 'history': list(hist_seq)}, True)
+        hist_monitor = monitor
+        try:
+            for st in steps:
+                st()
+        finally:
+            hist_seq = None
+            hist_monitor = None
+
+    nh = 25 if quick else 300
+    for it in range(nh):
+        kv = rand_kv(rng, maxp=3, nspans=int(rng.integers(1, 4)))
+        kv2 = rand_kv(rng, maxp=3, mesh=kv.mesh)
+        p = kv.p
+        wp = rand_poly(rng, int(rng.integers(1, 3))); wp[0] += 5
+        dudv = (int(rng.integers(0, p + 1)), int(rng.integers(0, p + 1)))
+        weighted = [lambda: biform_case(kv, 0, 0, None, wp), lambda: biform_case(kv, dudv[0], dudv[1], None, wp),
+                    lambda: biform_case(kv2, 0, 0, None, wp)]
+        if p >= 1:
+            weighted.append(lambda: biform_case(kv, 1, 1, None, wp))
+        plain = [lambda: biform_case(kv, 0, 0, None, None), lambda: biform_case(kv, dudv[0], dudv[1], None, None),
+                 lambda: biform_case(kv2, 0, 0, None, None),
+                 lambda: asym_case(kv, kv2, min(1, kv.p), min(1, kv2.p), None, None, 'history'),
+                 lambda: asym_case(kv, kv2, 0, 0, None, None, 'history'),
+                 lambda: tp_case((kv, kv2), 'mass', 'kron'), lambda: tp_case((kv2, kv), 'mass', 'generic'),
+                 lambda: inner_case((kv,), [rand_poly(rng, 1)], None),
+                 lambda: inner_case((kv, kv2), [rand_poly(rng, 1), rand_poly(rng, 1)], None),
+                 lambda: load_case(kv, rand_poly(rng, 2))]
+        if p >= 1:
+            plain.append(lambda: biform_case(kv, 1, 1, None, None))
+        if min(kv.p, kv2.p) >= 1:
+            plain.append(lambda: tp_case((kv, kv2), 'stiff', 'kron'))
+        n = int(rng.integers(3, 6))
+        steps = []
+        wpos = int(rng.integers(0, n - 1))          # at least one weighted call, never the last one
+        for k in range(n):
+            pool = weighted if (k == wpos or rng.integers(0, 4) == 0) else plain
+            steps.append(pool[int(rng.integers(0, len(pool)))])
+        run_history(kv, kv2, steps)
+        ctx.count('histories')
+        ctx.count('history calls', n)
+
     # ---- run the model --------------------------------------------------------------------------
     absreq = [m['abs'] for m in meta if 'abs' in m]
     got_all = ctx.model('drv_c09', req + absreq)
@@ -742,18 +836,58 @@ def run(ctx):
     def disagree(r, e, g, m, why):
         nonlocal ndis
         ndis += 1
-        key = 'gal-corr:' + m.get('what', m['kind'])
+        key = ('gal-hist:' if 'hist' in m else 'gal-corr:') + m.get('what', m['kind'])
         if key in seen_keys:          # one search + report per call site
             return
         seen_keys.add(key)
         found = search(m)
-        ctx.violation(key, 'model and implementation disagree on %s (%s)%s' % (m.get('what', m['kind']), why, (': ' + found) if found else ''),
+        after = ''
+        if 'hist' in m:
+            after = ' as call #%d of the in-process sequence %s' % (len(m['hist']), [c['call'] for c in m['hist']])
+        ctx.violation(key, 'model and implementation disagree on %s%s (%s)%s' % (m.get('what', m['kind']), after, why, (': ' + found) if found else ''),
                       {'request': r[:1500], 'implementation': str(e)[:1500], 'model': g[:1500], 'case': m.get('case'), 'oracle': found,
+                       'history (calls made in this order in one process; the last one is the failing call)': m.get('hist'),
                        'stream': 'gal (drv_c09)'}, found is not None)
 
+    def recall(st):
+        """re-issue a recorded call of a history (result ignored): rebuilds the in-process state the failing call saw"""
+        nm, c = st['call'], st['args']
+        mk = lambda k, p_: bspline.KnotVector(np.array(k), p_)
+        if nm == 'bsp_mixed_deriv_biform_1d':
+            assemble.bsp_mixed_deriv_biform_1d(mk(c['kv'], c['p']), c['du'], c['dv'], nqp=c['nqp'],
+                                               weightfunc=None if c['weight_poly'] is None else polyfun(c['weight_poly']))
+        elif nm.startswith('bsp_mixed_deriv_biform_1d_asym'):
+            assemble.bsp_mixed_deriv_biform_1d_asym(mk(c['kv1'], c['p1']), mk(c['kv2'], c['p2']), c['du'], c['dv'],
+                                                    quadgrid=None if c['quadgrid'] is None else np.array(c['quadgrid']), nqp=c['nqp'])
+        elif nm.startswith(('mass ', 'stiff ')):
+            kvs = tuple(mk(k, p_) for k, p_ in c['kvs'])
+            geo = None if c['path'] in ('kron', 'bsp') else identity_geo(kvs)
+            (assemble.mass if c['kind'] == 'mass' else assemble.stiffness)(kvs, geo=geo)
+        elif nm == 'load_vector':
+            bspline.load_vector(mk(c['kv'], c['p']), polyfun(c['f_poly']))
+        elif nm.startswith(('inner_products', 'integrate')):
+            kvs = tuple(mk(k, p_) for k, p_ in c['kvs'])
+            cf = c['f_coeffs']
+
+            def f(*X):
+                r = 1.0
+                for cc, xx in zip(cf, X):
+                    r = r * (cc[0] + cc[1] * xx)
+                return r
+            geo = None
+            if c['geo_coeffs'] is not None:
+                gk = tuple(bspline.make_knots(1, float(kv.kv[0]), float(kv.kv[-1]), 1) for kv in kvs)
+                geo = bspline.BSplineFunc(gk, np.array(c['geo_coeffs'], dtype=float))
+            (assemble.inner_products if nm.startswith('inner') else assemble.integrate)(kvs, f, geo=geo)
+
     def search(m):
-        """model-free oracle on the implementation for the failing case"""
+        """model-free oracle on the implementation for the failing case (for a history: after re-issuing the preceding calls)"""
         try:
+            for st in (m.get('hist') or [])[:-1]:
+                try:
+                    recall(st)
+                except Exception:
+                    pass
             c = m.get('case')
             if m['kind'] == 'detinv':
                 return oracle_detinv(np.array(m['X'], dtype=float))
@@ -796,7 +930,7 @@ def run(ctx):
         A = assemble.bsp_mixed_deriv_biform_1d(kv, du, dv, nqp=nqp, weightfunc=None if wpoly is None else polyfun(wpoly)).toarray()
         if deg > 2 * n_used - 1:
             # the requested rule is not exact for this integrand: compare with the dense definition C_dv^T diag(w) C_du instead
-            q = quadrature.make_iterated_quadrature(kv.mesh, n_used)
+            q = hquad(kv.mesh, n_used)
             Cd = bspline.collocation_derivs(kv, q[0], derivs=max(du, dv))
             wq = q[1] if wpoly is None else q[1] * polyfun(wpoly)(q[0])
             D = (Cd[dv].T @ np.diag(wq) @ Cd[du])
@@ -811,7 +945,7 @@ def run(ctx):
         A = assemble.bsp_mixed_deriv_biform_1d_asym(kv1, kv2, du, dv, quadgrid=quadgrid, nqp=nqp).toarray()
         if kv1.p + kv2.p - du - dv > 2 * n_used - 1:
             qg = kv1.mesh if quadgrid is None else quadgrid
-            q = quadrature.make_iterated_quadrature(qg, n_used)
+            q = hquad(qg, n_used)
             C1 = bspline.collocation_derivs(kv1, q[0], derivs=du)[du]; C2 = bspline.collocation_derivs(kv2, q[0], derivs=dv)[dv]
             D = np.asarray((C2.T @ np.diag(q[1]) @ C1))
             if A.shape != D.shape or not np.allclose(A, D, rtol=1e-10, atol=1e-10 * (np.abs(D).max() + 1e-300)):
